@@ -182,10 +182,6 @@ func specConvert(kind string, text string) (protoreflect.Value, bool) {
 // singleFieldJSON renders what protojson shows for a message in which only fd is set to v:
 // (json key, value) or ("", nil) when the value is the proto3 default (omitted).
 func singleFieldJSON(md protoreflect.MessageDescriptor, fd protoreflect.FieldDescriptor, v protoreflect.Value) (string, any) {
-	// generated messages treat a float -0 as the (omitted) default; dynamic ones do not
-	if (fd.Kind() == protoreflect.FloatKind || fd.Kind() == protoreflect.DoubleKind) && !fd.IsList() && v.Float() == 0 {
-		return "", nil
-	}
 	m := dynamicpb.NewMessage(md)
 	m.Set(fd, v)
 	var mm map[string]any
